@@ -62,6 +62,14 @@ func readResult(r ociregistry.BlobReader, err error) string {
 	return "read " + showDesc(r.Descriptor()) + " " + tok(string(data))
 }
 
+// scribble overwrites a buffer the harness handed to the registry, as a caller that reuses
+// its buffers would.
+func scribble(p []byte) {
+	for i := range p {
+		p[i] ^= 0xA5
+	}
+}
+
 func descResult(d ociregistry.Descriptor, err error) string {
 	if err != nil {
 		return "err " + errClass(err)
@@ -168,7 +176,9 @@ func (ri *regInterp) do(l string) string {
 		}
 		switch t[1] {
 		case "wwrite":
-			n, err := w.Write([]byte(arg(4)))
+			p := []byte(arg(4))
+			n, err := w.Write(p)
+			scribble(p) // io.Writer: Write must not retain p; the caller reuses its buffer
 			if err != nil {
 				return "err " + errClass(err)
 			}
@@ -191,7 +201,10 @@ func (ri *regInterp) do(l string) string {
 	case "mount":
 		return descResult(ri.reg.MountBlob(ctx, arg(2), arg(3), dg(4)))
 	case "pushmanifest":
-		return descResult(ri.reg.PushManifest(ctx, arg(2), arg(3), []byte(arg(4)), arg(5)))
+		data := []byte(arg(4))
+		d, err := ri.reg.PushManifest(ctx, arg(2), arg(3), data, arg(5))
+		scribble(data) // the caller reuses its buffer after the push
+		return descResult(d, err)
 	case "deleteblob":
 		return unitResult(ri.reg.DeleteBlob(ctx, arg(2), dg(3)))
 	case "deletemanifest":
